@@ -103,7 +103,11 @@ partial def toEx (nm : String × String) (names : List String) (extra : FV.Env) 
   | Term.binary op l r =>
     match opK nm op.name with
     | some k => if k == .null then opq else .binary k (toEx nm names extra l) (toEx nm names extra r)
-    | none => opq
+    | none =>
+      -- `binary_subtract`: lhs - rhs -> lhs + -rhs (the ring (add, mul) only)
+      if op.name == "sub" && nm.1 == "add" && nm.2 == "mul" then
+        .binop .add XR.neg XR.sub (toEx nm names extra l) (toEx nm names extra r)
+      else opq
   | Term.reduce op a vars =>
     match opK nm op, bintVars vars with
     | some .add, some vs => .reduce .add (vs.map (·.1)) (toEx nm names extra a)
@@ -117,6 +121,9 @@ partial def toEx (nm : String × String) (names : List String) (extra : FV.Env) 
     match σ.mapM (fun p => (subsArg p.2).map fun x => (p.1, x)) with
     | some σ' => .subs (toEx nm names extra a) σ'
     | none => opq
+  | Term.unary op a =>
+    -- negation is registered for `unary_contract` over `ops.add` Contractions (the ring (add, mul) only)
+    if op.name == "neg" && nm.1 == "add" && nm.2 == "mul" then .unary .add XR.neg (toEx nm names extra a) else opq
   | _ => opq
 
 /-- The `unfold` interpretation: unfold rule first, then the normalize cascade (driver-side closure). -/
@@ -127,7 +134,8 @@ partial def unfoldNorm (isU : OpK → XR → Bool) (fuel : Nat) (t : Ex XR) : Ex
     | .reduce op vars e => .reduce op vars (unfoldNorm isU (fuel - 1) e)
     | .contr red bin vars ts => .contr red bin vars (ts.map (unfoldNorm isU (fuel - 1)))
     | .subs e σ => .subs (unfoldNorm isU (fuel - 1) e) σ
-    | .unary u e => .unary u (unfoldNorm isU (fuel - 1) e)
+    | .unary h u e => .unary h u (unfoldNorm isU (fuel - 1) e)
+    | .binop k u g l r => .binop k u g (unfoldNorm isU (fuel - 1) l) (unfoldNorm isU (fuel - 1) r)
     | t => t
   match (ruleUnfold t').orElse (fun _ => normRoot isU t') with
   | none => t'
@@ -145,7 +153,8 @@ def rootShape : Ex XR → Sexp
   | .binary _ _ _ => Sexp.atom "binary"
   | .reduce _ _ _ => Sexp.atom "reduce"
   | .subs _ _ => Sexp.atom "subs"
-  | .unary _ _ => Sexp.atom "unary"
+  | .unary _ _ _ => Sexp.atom "unary"
+  | .binop _ _ _ _ _ => Sexp.atom "binary"
 
 /--
   C08 denote TERM (("n" size)*) ENV
